@@ -59,9 +59,13 @@ def parseBlk (tie : Bool) (s : String) : Option Blk :=
            start := ← parseOpt parseVal st, monitored := mon, tieWin := tie, dests := ← parseDests ds }
   | _ => none
 
-def parseCblocks (s : String) : Option (List Bool) :=
+def parseCblocks (s : String) : Option (List CScript) :=
   if s == "-" then some []
-  else s.toList.mapM fun ch => if ch == 'x' then some true else if ch == 'o' then some false else none
+  else (s.splitOn ",").mapM fun t =>
+    match t.toList with
+    | ['x'] => some .raises
+    | 'r' :: r => CScript.returns <$> Val.parse (String.ofList r)     -- `ru` = returns UNDEF
+    | _ => none
 
 def parseTies (s : String) : Option (List Bool) :=
   s.toList.mapM fun ch => if ch == '1' then some true else if ch == '0' then some false else none
@@ -88,7 +92,8 @@ def resultStr (n : Nat) (s : St) : String :=
     | some k => "fail " ++ k
     | none => "ok " ++ ",".intercalate ((List.range n).map fun b => (s.out b).render)
   let t := if s.aborted then "" else s!" t={s.elapsed}"
-  s!"{w} ready={if s.running then 1 else 0} done={if s.initDone then 1 else 0} {body}{t}"
+  let co := if s.errorKind.isNone then " c=" ++ (if s.cout.isEmpty then "-" else ",".intercalate (s.cout.map Val.render)) else ""
+  s!"{w} ready={if s.running then 1 else 0} done={if s.initDone then 1 else 0} {body}{t}{co}"
 
 def handle (s : DState) : List String → DState × String
   | "reset" :: n :: cbs :: ties :: toks =>
